@@ -79,14 +79,14 @@ def run_cases(chk, cases, label, old_model=False, runner=None):
         except E.Unencodable as e:
             chk.corr_failure("routing", case, f"observation outside the model's vocabulary: {e}")
             continue
-        rows.append((case, obs, term))
+        rows.append((case, obs, term, None if case["op"]["name"] == "raw" else E.events_term(case, obs)))
         chk.count(1, nontrivial_key=G.nontrivial_key(case, obs))
         chk.dist("op:" + case["op"]["name"] + (":" + case["op"]["raw"] if case["op"]["name"] == "raw" else ""))
         chk.dist("backends:%d" % len(case["backends"]))
         chk.dist("outcome:" + (obs["outcome"][0] if obs["outcome"][0] == "ok" else "raise-" + obs["outcome"][1]))
         for f in G.fault_tags(case, obs):
             chk.dist("fault:" + f)
-    for case, obs, _ in rows[:3]:
+    for case, obs, _, _ in rows[:3]:
         chk.sample({"case": case, "observed": {"outcome": obs["outcome"], "log": obs["log"]}})
     raw = bool(rows) and rows[0][0]["op"]["name"] == "raw"
     assert all((r[0]["op"]["name"] == "raw") == raw for r in rows), "raw and typed cases are evaluated separately"
@@ -95,28 +95,37 @@ def run_cases(chk, cases, label, old_model=False, runner=None):
     texts = [
         vlib.COQ_HEADER
         + "From Common Require Import Res Cases.\nFrom Routing Require Import Model Obs Spec Validation Front ObsFront.\n"
-        + f"Definition cases : list {'rcase' if raw else 'case'} :=\n " + vlib.g_list([t for _, _, t in shard]) + ".\n"
+        + f"Definition cases : list {'rcase' if raw else 'case'} :=\n " + vlib.g_list([r[2] for r in shard]) + ".\n"
         + f"Eval vm_compute in mismatches {fn} cases.\n"
         # the theorem predicate Spec.trace_ok_b (proved for every model observation:
         # C09_trace_predicate_holds) evaluated on the IMPLEMENTATION's observations
         + f"Eval vm_compute in mismatches {'rtrace_ok_case' if raw else 'trace_ok_case'} cases.\n"
+        # the core events recorded at mopidy.listener.send against Spec.events_spec
+        + ("" if raw else "Definition evs : list (list event) :=\n " + vlib.g_list([r[3] for r in shard]) + ".\n"
+           "Eval vm_compute in mismatches events_ok (combine cases evs).\n")
         for shard in shards
     ]
     results = vlib.coq_eval_many(AREA, texts, jobs=12)
     ok = True
     for shard, (rc, out) in zip(shards, results):
         lists = vlib.parse_all_lists(out)
-        if rc != 0 or len(lists) != 2:
+        if rc != 0 or len(lists) != (2 if raw else 3):
             ok = False
             chk.corr_failure("routing", {"shard": f"coq evaluation failed ({label})"}, out[-2000:])
             continue
-        bad, bad_trace = lists
+        bad, bad_trace = lists[0], lists[1]
+        for i in (lists[2] if len(lists) > 2 else []):
+            case, obs = shard[i][0], shard[i][1]
+            chk.monitor_failure("coq_events_ok", {"call": case["op"]["name"]},
+                                f"the events {obs.get('events')} are not the ones Spec.events_spec derives from the "
+                                f"validated outcome {obs['outcome']}",
+                                {"case": case, "observed": {"outcome": obs["outcome"], "events": obs.get("events")}})
         for i in bad:
             ok = False
-            case, obs, _ = shard[i]
+            case, obs = shard[i][0], shard[i][1]
             chk.corr_failure("routing", case, {"impl_outcome": obs["outcome"], "impl_log": obs["log"]})
         for i in bad_trace:
-            case, obs, _ = shard[i]
+            case, obs = shard[i][0], shard[i][1]
             chk.monitor_failure("coq_trace_ok", {"call": case["op"]["name"]},
                                 "Spec.trace_ok_b (keys exact / routing sound / unknown scheme empty / typed entries / "
                                 "raise shape) is false on the implementation's observation",
